@@ -1,51 +1,14 @@
 /-
   C16: `resolveType` terminates once `detectCycles` has accepted — the dependency list built by the Kahn pass
-  covers every jump `resolveType` makes into the body of a common type, PROVIDED no type reference starts with ':'
-  (otherwise `extractNamespace("A:::b") = "A:"` differs from the namespace `A` the resolver really uses).
+  covers every jump `resolveType` makes into the body of a common type: both read the namespace in which the body is
+  resolved from the table recorded at registration (`RState.nsOf`).  (Before the repair of
+  `resolve-common-type-cycle-undetected` both re-derived it from the qualified name, and
+  `extractNamespace("A:::b") = "A:"` differs from the namespace `A` the resolver used on the unqualified path.)
 -/
 import CedarGoProofs.Lemmas.C16Kahn
 namespace CedarGo.Schema
 
-/-! ### names -/
-
-theorem lastSepPrefix_append_sep (ns ref : List Char) (h : lastSepPrefix (':' :: ref) = none) :
-    lastSepPrefix (ns ++ ':' :: ':' :: ref) = some ns := by
-  induction ns with
-  | nil =>
-    show lastSepPrefix (':' :: ':' :: ref) = some []
-    rw [lastSepPrefix, h]
-    simp
-  | cons c cs ih =>
-    show lastSepPrefix (c :: (cs ++ ':' :: ':' :: ref)) = some (c :: cs)
-    rw [lastSepPrefix, ih]
-
-theorem lastSepPrefix_colon_cons (ref : List Char) (h1 : lastSepPrefix ref = none) (h2 : ref.head? ≠ some ':') :
-    lastSepPrefix (':' :: ref) = none := by
-  simp [lastSepPrefix, h1, h2]
-
-theorem sep_toList : "::".toList = [':', ':'] := by decide
-
-theorem extractNamespace_qualified (ns ref : String) (h1 : hasSep ref = false) (h2 : ref.toList.head? ≠ some ':') :
-    extractNamespace (ns ++ "::" ++ ref) = ns := by
-  unfold extractNamespace
-  have hnone : lastSepPrefix ref.toList = none := by
-    unfold hasSep at h1
-    cases h : lastSepPrefix ref.toList <;> simp_all
-  have : (ns ++ "::" ++ ref).toList = ns.toList ++ ':' :: ':' :: ref.toList := by
-    simp [String.toList_append, sep_toList]
-  rw [this, lastSepPrefix_append_sep _ _ (lastSepPrefix_colon_cons _ hnone h2)]
-  simp
-
-theorem extractNamespace_unqualified (ref : String) (h1 : hasSep ref = false) : extractNamespace ref = "" := by
-  unfold extractNamespace
-  unfold hasSep at h1
-  cases h : lastSepPrefix ref.toList <;> simp_all
-
 /-! ### the jump into a common type is an edge of the dependency graph -/
-
-def refNoColon (ref : String) : Prop := ref.toList.head? ≠ some ':'
-
-instance (ref : String) : Decidable (refNoColon ref) := by unfold refNoColon; infer_instance
 
 instance : DecidableEq (Except RErr Unit)
   | .ok (), .ok () => isTrue rfl
@@ -54,10 +17,10 @@ instance : DecidableEq (Except RErr Unit)
   | .error _, .ok _ => isFalse (by intro h; cases h)
 
 /-- where `lookupTypeRef` jumps to is the key `resolveTypeRefPath` computes, and the namespace it passes on is the
-    one `detectCycles` derives from that key -/
-theorem lookupTypeRef_common (r : RState) (ns ref ns' : String) (b : Ty) (hc : refNoColon ref)
+    one `detectCycles` uses for that key: the recorded declaring namespace -/
+theorem lookupTypeRef_common (r : RState) (ns ref ns' : String) (b : Ty)
     (h : lookupTypeRef r ns ref = .common ns' b) :
-    r.common? (resolveTypeRefPath r ns ref) = some b ∧ ns' = extractNamespace (resolveTypeRefPath r ns ref) := by
+    r.common? (resolveTypeRefPath r ns ref) = some b ∧ ns' = r.nsOf (resolveTypeRefPath r ns ref) := by
   unfold lookupTypeRef at h
   unfold resolveTypeRefPath
   by_cases hs : hasSep ref = true
@@ -69,15 +32,14 @@ theorem lookupTypeRef_common (r : RState) (ns ref ns' : String) (b : Ty) (hc : r
         simp only [RefTarget.common.injEq] at h
         exact ⟨by rw [hct, h.2], h.1.symm⟩
       · split at h <;> cases h
-  · have hs' : hasSep ref = false := by simpa using hs
-    rw [if_neg hs] at h ⊢
+  · rw [if_neg hs] at h ⊢
     by_cases hns : ns = ""
     · subst hns
       simp only [ne_eq, not_true_eq_false, if_false, false_and] at h ⊢
       split at h
       · rename_i ct hct
         simp only [RefTarget.common.injEq] at h
-        exact ⟨by rw [hct, h.2], by rw [← h.1, extractNamespace_unqualified ref hs']⟩
+        exact ⟨by rw [hct, h.2], h.1.symm⟩
       · split at h
         · cases h
         · split at h <;> cases h
@@ -87,7 +49,7 @@ theorem lookupTypeRef_common (r : RState) (ns ref ns' : String) (b : Ty) (hc : r
         rw [hq] at h
         simp only [RefTarget.common.injEq] at h
         simp only [Option.isSome_some, if_true]
-        exact ⟨by rw [hq, h.2], by rw [← h.1, extractNamespace_qualified ns ref hs' hc]⟩
+        exact ⟨by rw [hq, h.2], h.1.symm⟩
       | none =>
         rw [hq] at h
         simp only [Option.isSome_none, Bool.false_eq_true, if_false]
@@ -98,7 +60,7 @@ theorem lookupTypeRef_common (r : RState) (ns ref ns' : String) (b : Ty) (hc : r
           cases hq2 : r.common? ref with
           | some ct =>
             simp [he, hq2] at h
-            exact ⟨by rw [h.2], by rw [h.1, extractNamespace_unqualified ref hs']⟩
+            exact ⟨by rw [h.2], h.1.symm⟩
           | none =>
             simp only [he, hq2, Bool.false_eq_true, if_false] at h
             split at h
@@ -113,8 +75,8 @@ theorem common_mem_nodes (r : RState) (c : String) (b : Ty) (h : r.common? c = s
 
 theorem body_ref_mem_deps (r : RState) (c : String) (b : Ty) (hb : r.common? c = some b) (ref : String)
     (href : ref ∈ collectTypeRefs b) (b' : Ty)
-    (h : r.common? (resolveTypeRefPath r (extractNamespace c) ref) = some b') :
-    resolveTypeRefPath r (extractNamespace c) ref ∈ r.deps c := by
+    (h : r.common? (resolveTypeRefPath r (r.nsOf c) ref) = some b') :
+    resolveTypeRefPath r (r.nsOf c) ref ∈ r.deps c := by
   unfold RState.deps
   rw [hb]
   unfold depsOf
@@ -164,33 +126,29 @@ theorem resolveAttrsWith_ne_none (r : RState) (k : String → Ty → Fuelled RTy
       · simp
 end
 
-/-- hypotheses under which the Kahn pass sees every jump: no type reference starts with a colon -/
-structure RefsOk (r : RState) : Prop where
-  bodies : ∀ c b, r.common? c = some b → ∀ ref ∈ collectTypeRefs b, refNoColon ref
-
-theorem resolveTypeFuel_ne_none_of_rank (r : RState) (hok : RefsOk r) (rank : String → Nat)
+theorem resolveTypeFuel_ne_none_of_rank (r : RState) (rank : String → Nat)
     (hpos : ∀ c ∈ r.nodes, 1 ≤ rank c) (hdec : ∀ u ∈ r.nodes, ∀ v ∈ r.deps u, rank v < rank u) :
-    ∀ m ns t, (∀ ref ∈ collectTypeRefs t, refNoColon ref) →
+    ∀ m ns t,
       (∀ ref ∈ collectTypeRefs t, ∀ ns' b, lookupTypeRef r ns ref = .common ns' b → rank (resolveTypeRefPath r ns ref) ≤ m) →
       resolveTypeFuel r (m + 1) ns t ≠ none
-  | 0, ns, t, hnc, hr => by
+  | 0, ns, t, hr => by
     unfold resolveTypeFuel
     apply resolveTyWith_ne_none
     intro ref href ns' b hl
     exfalso
-    obtain ⟨h1, _⟩ := lookupTypeRef_common r ns ref ns' b (hnc ref href) hl
+    obtain ⟨h1, _⟩ := lookupTypeRef_common r ns ref ns' b hl
     have := hpos _ (common_mem_nodes r _ b h1)
     have := hr ref href ns' b hl
     omega
-  | m + 1, ns, t, hnc, hr => by
+  | m + 1, ns, t, hr => by
     unfold resolveTypeFuel
     apply resolveTyWith_ne_none
     intro ref href ns' b hl
-    obtain ⟨h1, h2⟩ := lookupTypeRef_common r ns ref ns' b (hnc ref href) hl
+    obtain ⟨h1, h2⟩ := lookupTypeRef_common r ns ref ns' b hl
     have hcN := common_mem_nodes r _ b h1
-    apply resolveTypeFuel_ne_none_of_rank r hok rank hpos hdec m ns' b (hok.bodies _ b h1)
+    apply resolveTypeFuel_ne_none_of_rank r rank hpos hdec m ns' b
     intro ref' href' ns'' b' hl'
-    obtain ⟨g1, _⟩ := lookupTypeRef_common r ns' ref' ns'' b' (hok.bodies _ b h1 ref' href') hl'
+    obtain ⟨g1, _⟩ := lookupTypeRef_common r ns' ref' ns'' b' hl'
     have hmem : resolveTypeRefPath r ns' ref' ∈ r.deps (resolveTypeRefPath r ns ref) := by
       rw [h2] at g1 ⊢
       exact body_ref_mem_deps r _ b h1 ref' href' b' g1
